@@ -7,7 +7,8 @@ import random
 from . import common, store
 
 common.use_repo()
-WORDS = {"t1": ("alpha", "ALPHA"), "t2": ("bravo", "BRAVO"), "t3": ("ünïx", "ÜNÏX"), "t4": ("delta", "DELTA")}
+WORDS = {"t1": ("alpha", "ALPHA"), "t2": ("bravo", "BRAVO"), "t3": ("ünïx", "ÜNÏX"), "t4": ("delta", "DELTA"),
+         "t5": ("q" * 1100, "Q" * 1100)}       # a token longer than a thousand characters: what follows it lies deep inside the value
 URLS = {"url1": "https://www.example.com/some/path;p?x=1#frag", "url2": "http://sub.example.org:8080/", "url3": "not a url"}
 TITLES = {"ti1": "(2) alpha zz", "ti2": "● bravo - editor", "ti3": "Game - FPS: 59.2 - alpha", "ti4": "* plain (3)"}
 
@@ -91,7 +92,10 @@ def rand_value(rnd):
     r = rnd.random()
     if r < 0.7:
         n = rnd.choice([1, 1, 2, 3, 1, 1, 2, 0])         # 0: the empty string
-        return {"k": "str", "toks": [{"t": rnd.choice(["t1", "t2", "t3", "t4"]), "c": rnd.choice("lu")} for _ in range(n)]}
+        toks = [{"t": rnd.choice(["t1", "t2", "t3", "t4"]), "c": rnd.choice("lu")} for _ in range(n)]
+        if toks and rnd.random() < 0.08:
+            toks.insert(0, {"t": "t5", "c": "l"})          # a very long value: the other tokens start beyond character 1100
+        return {"k": "str", "toks": toks}
     return {"k": rnd.choice(["int", "null", "list"])}
 
 
@@ -99,8 +103,8 @@ def rand_events(rnd, n):
     out = []
     for _ in range(n):
         data = {}
-        for k in ("k1", "k2", "k3"):
-            if rnd.random() < 0.6:
+        for k in ("k1", "k2", "k3", "$domain"):          # "$..." keys are ordinary keys (earlier annotations such as split_url_events' output)
+            if rnd.random() < (0.6 if k[0] != "$" else 0.25):
                 data[k] = rand_value(rnd)
         out.append({"ts": rnd.randrange(0, 5), "dur": rnd.choice([0, 1, 3]), "data": data})
     if out and rnd.random() < 0.35:
@@ -109,7 +113,7 @@ def rand_events(rnd, n):
         ks = sorted(e["data"])
         if ks:
             vals = [e["data"][k] for k in ks]
-            newks = rnd.sample(["k1", "k2", "k3", "k4"], len(ks))
+            newks = rnd.sample(["k1", "k2", "k3", "k4", "$domain"], len(ks))
             e["data"] = dict(zip(newks, vals))
             out.insert(rnd.randrange(len(out) + 1), e)
     return out
